@@ -28,6 +28,7 @@
 #include <gmssl/oid.h>
 #include <gmssl/asn1.h>
 #include <gmssl/pkcs8.h>
+#include <gmssl/sm3_xmss.h>
 
 static int first = 1;
 #define SEP() do { if (!first) printf(",\n"); first = 0; } while (0)
@@ -39,6 +40,8 @@ static int first = 1;
 int main(void)
 {
 	printf("{\n");
+	SZ(SM3_XMSS_KEY); SZ(SM3_XMSS_SIGN_CTX); SZ(SM3_XMSS_SIGNATURE); OFF(SM3_XMSS_KEY, secret); OFF(SM3_XMSS_KEY, prf_key); OFF(SM3_XMSS_KEY, index);
+	CONST(XMSS_SM3_10);
 	SZ(SM2_KEY); SZ(SM2_Z256_POINT); SZ(SM2_Z256_AFFINE_POINT); SZ(SM2_SIGNATURE); SZ(SM2_CIPHERTEXT);
 	SZ(SM2_SIGN_CTX); SZ(SM2_VERIFY_CTX); SZ(SM2_ENC_CTX); SZ(SM2_DEC_CTX); SZ(SM2_POINT);
 	OFF(SM2_KEY, public_key); OFF(SM2_KEY, private_key);
